@@ -145,6 +145,13 @@ def specJudge (XS : XmlSpec.SpecExt) (t : Ty) (doc : Bytes) (status payload : St
   -- classification only: value under the reading that exhibits the CDATA / comment defects
   let valueInterrupted : Except String Bytes :=
     valueOfNode (XmlSpec.buildAux (XmlSpec.meaning (interruptedReading toks false)) [] none)
+  let valueInterruptedCrLf : Except String Bytes :=
+    match XmlSpec.buildAux (XmlSpec.meaning (interruptedReading toks false)) [] none with
+    | .ok node =>
+      match XmlSpec.specValue { XS with strNorm := fun s => XmlSpec.normEol s } XmlSpec.judgeDef smithyDepth dr t node with
+      | .ok v => .ok v
+      | .error _ => .error "misfit"
+    | .error _ => .error "ill"
   let interruptClass := if docHasCdata toks then "xml-cdata-dropped" else "xml-comment-splits-text"
   let docV := value doc
   if status = "err" then
@@ -183,8 +190,9 @@ def specJudge (XS : XmlSpec.SpecExt) (t : Ty) (doc : Bytes) (status payload : St
             -- classify by the shape of the input
             let cls :=
               if b.contains 13 && valueCrLf doc == valueCrLf b then "xml-cr-not-escaped"
+              else if doc.contains 13 && valueCrLf doc == valueCrLf b then "xml-eol-not-normalised"
               else if valueInterrupted == .ok v' then interruptClass
-              else if b.contains 13 && (docHasCdata toks || valueInterrupted != docV) then interruptClass
+              else if (b.contains 13 || doc.contains 13) && valueInterruptedCrLf == valueCrLf b then interruptClass
               else "xml-meaning-changed"
             some (cls, "meaning of the accepted document ≠ meaning of the re-encoded document")
   else none
